@@ -11,9 +11,9 @@ META = {
             "changes terminate. The same module in Eager mode generates complete schedules (Send / set change / stop / exchange completions "
             "with success or failure) which are reproduced deterministically on the real Manager with every HTTP request blocked at a gate in "
             "Options.Do; after every step the arriving batch, the received log, the counters and the spec's verdict on the observation are "
-            "compared. The order and drain-complete properties hold in the model only with the disjunct for KF-C46-1 (stop() does not wait "
-            "for the loop goroutine); the real code reproduces both manifestations. MC_fix checks that joining the loop goroutine before "
-            "draining restores the plain properties.",
+            "compared. KF-C46-1 (stop() drained without waiting for the loop goroutine; fixed in ce5b29f1f9) is modelled by JoinFix = FALSE "
+            "(MC_nojoin.cfg); the default model waits, the plain order and drain-complete properties are checked, and the harness reports a "
+            "drain request or a finished shutdown that overlaps a batch the loop goroutine still has in flight.",
     "note": "Bounded: 2 Alertmanagers (one initial, one set change, removed ones never re-added), 3 (quick) to 5 alerts in Send calls of 1-4, capacity 2-3, "
             "batch 2, <=1 failed exchange, one relabel-dropped alert. Fan-out of one Send to all loops is one atomic step (loops are "
             "independent; all adds run under ams.mtx). Replay covers only schedules in which the environment moves when no goroutine can move "
@@ -41,26 +41,26 @@ def run(ctx):
         c.update(extra or {})
         return ctx.tlc("sendloop", "SendLoop", cfg, constants=c, **kw)
 
+    J = "TRUE"      # JoinFix: stop() waits for the loop goroutine before draining (the code since ce5b29f1f9)
     jobs = {
-        "mcT": ("MC_quick.cfg", "TRUE", "FALSE", None),
-        "mcF": ("MC_quick.cfg", "FALSE", "FALSE", None),
-        "rpT": ("MC_replay.cfg", "TRUE", "FALSE", {"Cap": "2", "NAlerts": "5"}),
-        "rpF": ("MC_replay.cfg", "FALSE", "FALSE", {"Cap": "2", "NAlerts": "5"}),
-        "rp1T": ("MC_replay1.cfg", "TRUE", "FALSE", {"Cap": "3", "NAlerts": "6"}),
-        "rp1F": ("MC_replay1.cfg", "FALSE", "FALSE", {"Cap": "3", "NAlerts": "6"}),
-        "fixT": ("MC_fix.cfg", "TRUE", None, None),
-        "live": ("MC_live.cfg", "TRUE", "FALSE", {"NAlerts": "2" if q else "3"}),
+        "mcT": ("MC_quick.cfg", "TRUE", J, None),
+        "mcF": ("MC_quick.cfg", "FALSE", J, None),
+        "rpT": ("MC_replay.cfg", "TRUE", J, {"Cap": "2", "NAlerts": "5"}),
+        "rpF": ("MC_replay.cfg", "FALSE", J, {"Cap": "2", "NAlerts": "5"}),
+        "rp1T": ("MC_replay1.cfg", "TRUE", J, {"Cap": "3", "NAlerts": "6"}),
+        "rp1F": ("MC_replay1.cfg", "FALSE", J, {"Cap": "3", "NAlerts": "6"}),
+        "live": ("MC_live.cfg", "TRUE", J, {"NAlerts": "2" if q else "3"}),
     }
     if not q:
         jobs.update({
-            "rp3T": ("MC_replay.cfg", "TRUE", "FALSE", {"Cap": "3", "NAlerts": "5"}),
-            "rp3F": ("MC_replay.cfg", "FALSE", "FALSE", {"Cap": "3", "NAlerts": "5"}),
-            "rp6T": ("MC_replay.cfg", "TRUE", "FALSE", {"Cap": "2", "NAlerts": "6"}),
-            "midT": ("MC_mid.cfg", "TRUE", "FALSE", None),
-            "midF": ("MC_mid.cfg", "FALSE", "FALSE", None),
-            "bigT": ("MC_big.cfg", "TRUE", None, None),
-            "fixF": ("MC_fix.cfg", "FALSE", None, None),
-            "liveFix": ("MC_live.cfg", "TRUE", "TRUE", {"NAlerts": "3"}),
+            "rp3T": ("MC_replay.cfg", "TRUE", J, {"Cap": "3", "NAlerts": "5"}),
+            "rp3F": ("MC_replay.cfg", "FALSE", J, {"Cap": "3", "NAlerts": "5"}),
+            "rp6T": ("MC_replay.cfg", "TRUE", J, {"Cap": "2", "NAlerts": "6"}),
+            "midT": ("MC_mid.cfg", "TRUE", J, None),
+            "midF": ("MC_mid.cfg", "FALSE", J, None),
+            "bigT": ("MC_big.cfg", "TRUE", J, None),
+            # the code before the fix: the properties hold only with the `racy` disjunct
+            "nojoin": ("MC_nojoin.cfg", "TRUE", None, None),
         })
     with ThreadPoolExecutor(max_workers=3 if q else 2) as ex:
         f = {k: ex.submit(tlc, cfg, drain, join, extra, workers=w, timeout=3000) for k, (cfg, drain, join, extra) in jobs.items()}
@@ -110,7 +110,7 @@ def run(ctx):
         "bounded model: 2 Alertmanagers, <=5 (thorough 6) alerts, capacity 2 and (single Alertmanager, 6 alerts) 3, batch 2, <=1 failed exchange, <=1 set change, removed Alertmanagers are not re-added",
         "replayed schedules are the Eager ones (environment moves only at quiescence); %d of %d generated schedules replayed in this tier" % (len(behs), total),
         "fan-out of one Send to all send loops is atomic in the model (all adds run under ams.mtx; loops are independent)",
-        "OrderPreserved and DrainComplete are checked with the KF-C46-1 disjunct (stop() began while the loop goroutine held or could still take a batch)",
+        "without drain-on-shutdown stop() does not wait for the loop: LossExact allows one batch already counted as dropped to be sent (not part of the property)",
     ]
     return ctx.finish(rule="every complete Eager schedule of the bounded model (quick: seeded sample) replayed through a gate in Options.Do; each step "
                            "compares arriving batch, received log, counters and the spec's orderOK/drainOK verdict", exhaustive=False)
